@@ -208,6 +208,10 @@ def tlc_cases(cases):
     """strip harness-only fields"""
     out = []
     for c in cases:
+        if c["kind"] == "mix":
+            from harness.drivers import c06mix
+            out.append(c06mix.tlc_view(c))
+            continue
         d = {k: v for k, v in c.items() if k in ("kind", "id", "specs", "now", "startup", "t", "u", "fold", "horizon",
                                                  "runs", "wantStartup", "wantShutdown", "nStartup", "nShutdown",
                                                  "startupAt0", "shutdownAtEnd", "afterRemoval")}
@@ -222,9 +226,10 @@ def tlc_cases(cases):
 _LOCK = __import__("threading").Lock()
 
 
-def accept(ctx, cases, label, chunks=8, size=700):
+def accept(ctx, cases, label, chunks=8, size=700, facts=None):
     """Validate cases with spec/TimeTrace.tla (several TLC processes side by side); returns
-    {id: reject record}."""
+    {id: reject record}.  facts: dict filled with {id: INFO record} (what TLC says a "mix" recording
+    exercised)."""
     import concurrent.futures as cf
     if not cases:
         return {}
@@ -248,6 +253,9 @@ def accept(ctx, cases, label, chunks=8, size=700):
             if "raw" in rj:
                 raise MachineryFailure("unparsable REJECT line: %s" % rj["raw"][:300])
             rejects[rj["id"]] = rj
+        for inf in res.infos:
+            if facts is not None and "id" in inf:
+                facts[inf["id"]] = inf
     return rejects
 
 
@@ -409,7 +417,11 @@ def _sunoff(sp):
 
 
 def gen_scenario(r, sid, family, legacy, dow_names):
-    """a running-trigger scenario; families: generic (masked space), dst, weekly, sunoff (unmasked)"""
+    """a running-trigger scenario; families: generic (masked space), dst, weekly, sunoff (unmasked), mix (a
+    function with other trigger sources next to @time_trigger: harness/drivers/c06mix.py)"""
+    if family == "mix":
+        from harness.drivers import c06mix
+        return c06mix.gen_mix(r, sid, legacy)
     trs = [t for t in tf.transitions_in_window() if tf.WIN_FROM <= t["local"] <= tf.WIN_TO]
     specs = []
     horizon = r.choice([6 * 3600, 86400, 2 * 86400, 3 * 86400]) + 0.5
@@ -560,6 +572,31 @@ def bare_scenarios(r, sid0):
     return out
 
 
+class ScenarioTimeout(SystemExit):
+    """(SystemExit: asyncio lets it through instead of storing it in whatever task happens to run)"""
+
+
+def record(scn, limit=900):
+    """run one scenario; a scenario that does not finish within `limit` seconds of REAL time (code under test
+    spinning without yielding: virtual time cannot advance) is a machinery failure, not a hang of the check"""
+    import signal
+
+    def on_alarm(*_):
+        raise ScenarioTimeout("scenario %s did not finish within %d s of real time" % (scn["sid"], limit))
+    old = signal.signal(signal.SIGALRM, on_alarm)
+    signal.alarm(limit)
+    try:
+        if scn["family"] == "mix":
+            from harness.drivers import c06mix
+            return {"scn": scn, "case": c06mix.mix_case(scn, c06mix.run_mix(scn))}
+        return {"scn": scn, "case": scenario_case(scn, run_scenario(scn))}
+    except ScenarioTimeout as ex:
+        raise RuntimeError("%s: %s" % (ex, json.dumps(scn)[:2000])) from None
+    finally:
+        signal.alarm(0)
+        signal.signal(signal.SIGALRM, old)
+
+
 def work_run(job):
     r = random.Random(job["seed"])
     out = []
@@ -567,14 +604,14 @@ def work_run(job):
     for k in range(job["count"]):
         fam = job["families"][k % len(job["families"])]
         scn = gen_scenario(r, "r%d.%d" % (job["seed"], k), fam, legacy=r.random() < 0.5, dow_names=names)
-        out.append({"scn": scn, "case": scenario_case(scn, run_scenario(scn))})
+        out.append(record(scn))
     for scn in job.get("extra", []):
-        out.append({"scn": scn, "case": scenario_case(scn, run_scenario(scn))})
+        out.append(record(scn))
     return out
 
 
 def work_run_replay(job):
-    return [{"scn": job["scn"], "case": scenario_case(job["scn"], run_scenario(job["scn"]))}]
+    return [record(job["scn"])]
 
 
 def sig_run(c, rj):
@@ -594,7 +631,13 @@ def judge_run(ctx, results, label, rejects=None):
     rejects = accept(ctx, cases, label, size=60) if rejects is None else rejects
     for c in cases:
         rj = rejects.get(c["id"])
-        if rj:
+        if rj and c["kind"] == "mix":
+            from harness.drivers import c06mix
+            sig = c06mix.sig_mix(c, rj)
+            ctx.report(sig, "@time_trigger next to other trigger sources: %s (%s, %s, %s)" % (
+                rj["clause"], sig["with"], sig["subsystem"], sig["at"]),
+                {"level": "run", "scn": scn_of[c["id"]], "case": c, "reject": rj})
+        elif rj:
             sig = sig_run(c, rj)
             ctx.report(sig, "running @time_trigger: %s (%s, %s)" % (rj["clause"], sig["form"], sig["subsystem"]),
                        {"level": "run", "scn": scn_of[c["id"]], "case": c, "reject": rj})
@@ -855,7 +898,7 @@ def write_mc(ctx, quick):
                 "EXTENDS Integers\n"
                 "MaxSteps == %d\nMCEnv == %s\nCat == <<\n  %s\n>>\n"
                 "=============================================================================\n" % (
-                    5 if quick else 14, to_tla(small_env), ",\n  ".join(to_tla(e) for e in cat)))
+                    4 if quick else 14, to_tla(small_env), ",\n  ".join(to_tla(e) for e in cat)))
     return d, cat
 
 
@@ -881,6 +924,65 @@ def model_check(ctx):
     ctx.cov["mc_theorems"] = MC_THEOREMS
     ctx.cov["witnesses_violated_as_expected"] = len(MC_WITNESSES)
     return res
+
+
+LOOP_THEOREMS = ["T_PendingIsProduct", "T_LegacyOffTie", "T_LegacyDenoted"]
+LOOP_WITNESSES = ["W_CachedIsProduct", "W_CachedDenoted", "W_LegacyIsProduct", "W_NoAbandonBeforeInstant", "W_NoHoldSpansInstant",
+                  "W_NoHoldEndsAtInstant", "W_NoWakeAtInstant", "W_NoWakeBetween"]
+
+
+def model_check_loop(ctx):
+    """(M) spec/TimeLoop.tla: the single-deadline wait loop that multiplexes the time source with a state
+    source (state_hold) and an event source is the statement of TimeLoopCore (the runs of the sources
+    taken alone) - for the loop with the proposed repair everywhere, for the pinned loop outside the mask of
+    the known finding; the same theorem about the loop of the seeded-defect class must be violated."""
+    d = os.path.join(ctx.scratch, "mcloop")
+    os.makedirs(d, exist_ok=True)
+    cfg = os.path.join(d, "TimeLoop.cfg")
+    with open(cfg, "w") as f:
+        # quick: three of the five catalogue entries, at most two stimuli; thorough: all, three stimuli
+        f.write("SPECIFICATION Spec\nCHECK_DEADLOCK FALSE\nCONSTANTS\n  Horizon = 10\n  MaxStim = %d\n"
+                '  Modes = {"pending", "legacy", "cached"}\n  Entries = %s\nINVARIANT Witnesses\n' % (ctx.pick(2, 3), ctx.pick("{1, 2, 4}", "{1, 2, 3, 4, 5}"))
+                + "".join("INVARIANT %s\n" % t for t in LOOP_THEOREMS))
+    res = tlc.run("TimeLoop", cfg, ctx.scratch, timeout=3000, workers=min(NPROC, 4))
+    ctx.add_tlc(res, "TimeLoop(3 loops x %d catalogue entries, <= %d stimuli)" % (ctx.pick(3, 5), ctx.pick(2, 3)))
+    if not res.ok:
+        ctx.report({"level": "model", "clause": res.violated}, "TimeLoop.tla violates %s" % res.violated, {"level": "model-loop", "cex": res.cex})
+    seen = {i.get("w") for i in res.infos}
+    missing = [w for w in LOOP_WITNESSES if w not in seen]
+    if missing:
+        raise MachineryFailure("TimeLoop: witness %s never violated: the model does not exercise that situation" % missing)
+    ctx.cov["loop_model"] = {"theorems": LOOP_THEOREMS, "witnesses_violated_as_expected": LOOP_WITNESSES, "distinct_states": res.distinct}
+    return res
+
+
+def coverage_mix(ctx, run_cases, rj_run, facts):
+    mix = [c for c in run_cases if c["kind"] == "mix"]
+    if not mix:
+        return
+    missing = [c["id"] for c in mix if c["id"] not in facts]
+    if missing:
+        raise MachineryFailure("TimeTrace printed no facts for mix recordings %s" % missing[:3])
+    keys = ("abandonedBeforeInstant", "holdSpansInstant", "holdEndsAtInstant", "wakeAtInstant")
+    per = {}
+    for sub in ("legacy", "dm"):
+        cs = [c for c in mix if c["legacy"] == (sub == "legacy")]
+        per[sub] = {"scenarios": len(cs), "accepted": sum(1 for c in cs if c["id"] not in rj_run),
+                    "time_runs": sum(facts[c["id"]]["timeRuns"] for c in cs), "other_runs": sum(facts[c["id"]]["otherRuns"] for c in cs),
+                    "stimuli": sum(len(c["stims"]) for c in cs), "wake_ups_between_instants": sum(facts[c["id"]]["wakesBetween"] for c in cs),
+                    "holds_abandoned": sum(facts[c["id"]]["abandoned"] for c in cs), "holds_completed": sum(facts[c["id"]]["completed"] for c in cs)}
+        for k in keys:
+            per[sub][k] = sum(1 for c in cs if facts[c["id"]][k])
+            per[sub][k + "_accepted"] = sum(1 for c in cs if facts[c["id"]][k] and c["id"] not in rj_run)
+    ctx.cov["mix"] = {"scenarios": len(mix), "with": _count(c["shape"] for c in mix), "tie_placements": sum(1 for c in mix if c["ties"]),
+                      "rejected": sum(1 for c in mix if c["id"] in rj_run), "by_subsystem": per}
+    # not vacuous: in both subsystems TLC has judged recordings in which a hold was abandoned before the next
+    # instant, a hold was pending across an instant, a hold ended at an instant (a rejected one is reported anyway)
+    # (the fixed scenarios of c06mix.fixed_scenarios() guarantee these whatever the seed)
+    for sub, need in (("legacy", keys[:3]), ("dm", keys[:2])):
+        for k in need:
+            if per[sub]["scenarios"] >= 5 and not per[sub][k]:
+                raise MachineryFailure("mix recordings (%s): no recording with %s" % (sub, k))
 
 
 # =============================================================================== environment validation, documented examples
@@ -1033,7 +1135,7 @@ def witness_scenarios():
 
 
 # =============================================================================== self-test: corrupted recordings must be rejected
-def selftest(ctx, next_cases, run_cases, active_cases_, rejected_ids):
+def selftest(ctx, next_cases, run_cases, active_cases_, rejected_ids, parts=("mc", "next", "run", "active")):
     bad = []
     for c in next_cases:
         if c["id"] in rejected_ids or len(bad) >= 60:
@@ -1055,7 +1157,7 @@ def selftest(ctx, next_cases, run_cases, active_cases_, rejected_ids):
             bad += [c2, c3, c4]
     n1 = len(bad)
     for c in run_cases:
-        if c["id"] in rejected_ids or len(bad) >= n1 + 40 or len(c["runs"]) < 2:
+        if c["id"] in rejected_ids or len(bad) >= n1 + 40 or len(c["runs"]) < 2 or c["kind"] == "mix":
             continue
         c2 = copy.deepcopy(c)
         c2["id"] = "corrupt-drop/" + c["id"]
@@ -1078,13 +1180,26 @@ def selftest(ctx, next_cases, run_cases, active_cases_, rejected_ids):
         c2["id"] = "corrupt-flip/" + c["id"]
         c2["obs"] = "F" if c["obs"] == "T" else "T"
         bad.append(c2)
-    if n1 == 0 or n2 == n1 or len(bad) == n2:
-        raise MachineryFailure("selftest: nothing to corrupt (%d, %d, %d)" % (n1, n2 - n1, len(bad) - n2))
+    n3 = len(bad)
+    # "mix" recordings: what a loop that mixes up its sources would deliver
+    from harness.drivers import c06mix
+    kinds = {}
+    for c in run_cases:
+        if c["kind"] != "mix" or c["id"] in rejected_ids or len(bad) >= n3 + 40:
+            continue
+        for c2 in c06mix.corruptions(c):
+            k = c2["id"].split("/")[0]
+            if kinds.get(k, 0) < 6:
+                kinds[k] = kinds.get(k, 0) + 1
+                bad.append(c2)
+    if ("next" in parts and n1 == 0) or ("run" in parts and (n2 == n1 or len(kinds) < 4)) or ("active" in parts and n3 == n2):
+        raise MachineryFailure("selftest: nothing to corrupt (%d, %d, %d, mix %s)" % (n1, n2 - n1, n3 - n2, kinds))
     rejects = accept(ctx, bad, "corrupt", chunks=2)
     missed = [c["id"] for c in bad if c["id"] not in rejects]
     if missed:
         raise MachineryFailure("selftest: corrupted recordings accepted: %s" % missed[:4])
     ctx.cov["selftest_corruptions_rejected"] = len(bad)
+    ctx.cov["selftest_mix_corruptions"] = kinds
 
 
 # =============================================================================== main
@@ -1102,6 +1217,16 @@ def main(ctx):
         phases.append({"phase": name, "wall_s": round(time.time() - mark["t"], 1),
                        "cpu_children_s": round(c.ru_utime + c.ru_stime - mark["c"].ru_utime - mark["c"].ru_stime, 1)})
         mark["t"], mark["c"] = time.time(), c
+    # development switches (mutant / fix trials): VERIF_C06_PARTS=mc,next,run,active  VERIF_C06_SCALE=0.25
+    parts = set(os.environ.get("VERIF_C06_PARTS", "mc,next,run,active").split(","))
+    scale = float(os.environ.get("VERIF_C06_SCALE", "1"))
+    if parts != {"mc", "next", "run", "active"} or scale != 1:
+        ctx.cov["partial_run"] = {"parts": sorted(parts), "scale": scale}
+    # (M) runs beside everything else (TimeMC is the longest single step of the quick tier: started first)
+    pool = cf.ThreadPoolExecutor(max_workers=2)
+    mc_future = pool.submit(model_check, ctx) if "mc" in parts else None
+    loop_future = pool.submit(model_check_loop, ctx) if "mc" in parts else None
+    facts = {}
     # 0. the environment tables and the specification itself
     docs = doc_examples()
     rej = accept(ctx, env_cases() + docs, "env+docs", chunks=1)
@@ -1112,14 +1237,6 @@ def main(ctx):
         raise MachineryFailure("TimeSpec disagrees with the repository's documented examples: %s" % list(rej.values())[:3])
     ctx.cov["documented_examples_replayed"] = len(docs)
     phase("env+docs")
-    # development switches (mutant / fix trials): VERIF_C06_PARTS=mc,next,run,active  VERIF_C06_SCALE=0.25
-    parts = set(os.environ.get("VERIF_C06_PARTS", "mc,next,run,active").split(","))
-    scale = float(os.environ.get("VERIF_C06_SCALE", "1"))
-    if parts != {"mc", "next", "run", "active"} or scale != 1:
-        ctx.cov["partial_run"] = {"parts": sorted(parts), "scale": scale}
-    # (M) runs beside the recordings
-    pool = cf.ThreadPoolExecutor(max_workers=1)
-    mc_future = pool.submit(model_check, ctx) if "mc" in parts else None
     # (T) recordings: three independent chains (record with worker processes, then let TLC judge), side by side
     def chain_next():
         if "next" not in parts:
@@ -1133,12 +1250,16 @@ def main(ctx):
     def chain_run():
         if "run" not in parts:
             return [], {}
-        n_run = max(1, int(ctx.pick(8, 150) * scale))
-        fams = ["generic", "generic", "generic", "dst", "generic", "weekly", "generic", "sunoff", "generic", "dst"]
-        rjobs = [{"seed": ctx.seed * 1000 + 500 + k, "count": n_run, "families": fams[k % len(fams):] + fams[:k % len(fams)]} for k in range(16)]
-        rjobs[0]["extra"] = witness_scenarios() + bare_scenarios(random.Random(ctx.seed), "b%d" % ctx.seed)
+        n_run = max(1, int(ctx.pick(7, 150) * scale))
+        from harness.drivers import c06mix
+        # (round 4: three of the six "generic" slots became "mix": @time_trigger next to other trigger sources)
+        fams = ["generic", "mix", "generic", "dst", "mix", "weekly", "generic", "sunoff", "mix", "dst"]
+        rjobs = [{"seed": ctx.seed * 1000 + 500 + k, "count": n_run, "families": fams[k % len(fams):] + fams[:k % len(fams)], "extra": []} for k in range(16)]
+        fixed = witness_scenarios() + bare_scenarios(random.Random(ctx.seed), "b%d" % ctx.seed) + c06mix.fixed_scenarios()
+        for k, scn in enumerate(fixed):
+            rjobs[k % len(rjobs)]["extra"].append(scn)
         results = [x for r in run_workers(MOD, "work_run", rjobs, ctx.scratch, nproc=NPROC) for x in r]
-        return results, accept(ctx, [x["case"] for x in results], "run", size=60)
+        return results, accept(ctx, [x["case"] for x in results], "run", size=60, facts=facts)
 
     def chain_active():
         if "active" not in parts:
@@ -1159,18 +1280,20 @@ def main(ctx):
     judge_next(ctx, next_cases, "next", rj_next)
     run_cases, _ = judge_run(ctx, run_results, "run", rj_run)
     judge_active(ctx, act_cases, "active", rejects=rj_act)
-    if parts == {"mc", "next", "run", "active"}:
-        selftest(ctx, next_cases, run_cases, act_cases, set(rj_next) | set(rj_run) | set(rj_act))
+    if parts - {"mc"}:
+        selftest(ctx, next_cases, run_cases, act_cases, set(rj_next) | set(rj_run) | set(rj_act), parts)
     phase("selftest")
     if mc_future:
         mc_future.result()
+        loop_future.result()
     pool.shutdown()
     phase("wait for model checking")
-    coverage(ctx, next_cases, run_cases, act_cases, rj_next, rj_run, rj_act)
+    coverage(ctx, next_cases, run_cases, act_cases, rj_next, rj_run, rj_act, facts)
 
 
-def coverage(ctx, next_cases, run_cases, act_cases, rj_next, rj_run, rj_act):
+def coverage(ctx, next_cases, run_cases, act_cases, rj_next, rj_run, rj_act, facts=None):
     cov = ctx.cov
+    coverage_mix(ctx, run_cases, rj_run, facts or {})
     masked = [c for c in next_cases if c["masked"]]
     cov["evaluations"] = len(next_cases) + len(act_cases) + sum(len(c["runs"]) for c in run_cases)
     nontriv = {json.dumps([c["texts"], c["now"], c["startup"]]) for c in next_cases if c["obs"]["k"] == "at"}
@@ -1179,7 +1302,9 @@ def coverage(ctx, next_cases, run_cases, act_cases, rj_next, rj_run, rj_act):
     cov["distinct_nontrivial"] = len(nontriv)
     cov["rule"] = ("function level: generated (spec list <= 3, now, startup) triples, now placed on / 1 us around / far from a denoted instant "
                    "over 2019-03-01..2021-03-01 (America/Los_Angeles; DST days, leap day, month/year ends over-sampled); non-trivial = a next "
-                   "instant exists; distinct by (texts, now, startup).  behaviour level: running @time_trigger scenarios with >= 1 timed run.  "
+                   "instant exists; distinct by (texts, now, startup).  behaviour level: running @time_trigger scenarios with >= 1 timed run "
+                   "(family mix: the function also has @state_trigger [state_hold / state_hold_false / state_check_now] and / or @event_trigger, "
+                   "stimuli applied between and around the instants).  "
                    "windows: (list <= 4, t, startup) with t at end points +- 1 us; non-trivial = active")
     cov["next"] = {"cases": len(next_cases), "masked_space": len(masked), "masked_rejected": sum(1 for c in masked if c["id"] in rj_next),
                    "unmasked_space": len(next_cases) - len(masked), "unmasked_rejected": sum(1 for c in next_cases if not c["masked"] and c["id"] in rj_next),
@@ -1189,9 +1314,11 @@ def coverage(ctx, next_cases, run_cases, act_cases, rj_next, rj_run, rj_act):
                    "now_on_dst_day": sum(1 for c in next_cases if _on_dst_day(c)),
                    "fold1": sum(1 for c in next_cases if c["now"]["fold"] == 1),
                    "now_equals_startup": sum(1 for c in next_cases if c["now"]["t"] == c["startup"])}
+    def in_mask(c):            # a mix rejection is in the masked space unless TLC places it in the input class of a known finding
+        return c["masked"] and not (c["kind"] == "mix" and rj_run.get(c["id"], {}).get("at", "elsewhere") != "elsewhere")
     cov["run"] = {"scenarios": len(run_cases), "timed_runs": sum(len(c["runs"]) for c in run_cases),
-                  "masked_space": sum(1 for c in run_cases if c["masked"]), "masked_rejected": sum(1 for c in run_cases if c["masked"] and c["id"] in rj_run),
-                  "unmasked_rejected": sum(1 for c in run_cases if not c["masked"] and c["id"] in rj_run),
+                  "masked_space": sum(1 for c in run_cases if c["masked"]), "masked_rejected": sum(1 for c in run_cases if in_mask(c) and c["id"] in rj_run),
+                  "unmasked_rejected": sum(1 for c in run_cases if not in_mask(c) and c["id"] in rj_run),
                   "families": _count(c["family"] for c in run_cases), "legacy": sum(1 for c in run_cases if c["legacy"]),
                   "startup_entries": sum(1 for c in run_cases if c["wantStartup"]), "shutdown_entries": sum(1 for c in run_cases if c["wantShutdown"])}
     cov["active"] = {"cases": len(act_cases), "active": sum(1 for c in act_cases if c["obs"] == "T"), "rejected": len(rj_act),
@@ -1213,6 +1340,7 @@ def coverage(ctx, next_cases, run_cases, act_cases, rj_next, rj_run, rj_act):
         "unspecified and therefore nondeterministic in TimeSpec: reference day of today/tomorrow; time scale of equal spacing of a dated period() across a clock change (docs: elapsed, repository tests: wall clock); now = startup coinciding with an instant of a non-now form",
         "not generated: period() with weekday/yearless start or mixed start/end kinds; sub-second period intervals; weekday-based range(); evaluation times inside the skipped hour; once()/period() instants of running triggers inside the skipped or repeated hour; 'startup' listed next to a zero-offset now form",
         "running triggers: the virtual wall clock advances by 1 us per reading at an unchanged loop time (a real clock never returns the same reading twice); runs are accepted within 1 ms of the instant",
+        "functions with other trigger sources next to @time_trigger (family mix): only the time runs are judged strictly (exactly the denoted instants, whatever woke the loop up); a state / event run only needs a cause among the applied stimuli (which of them happen is C05's automaton); @mqtt_trigger / @webhook_trigger, @state_active / @time_active next to the sources, task.wait_until and clock changes inside such a scenario are not generated; in these scenarios the loop clock advances by 1 ps per reading at an unchanged virtual time (the default subsystem's state_hold loop does not yield while its timer is a rounding error early)",
     ]
 
 
@@ -1245,5 +1373,7 @@ def replay(ctx):
         judge_active(ctx, res, "replay")
     elif lvl == "model":
         model_check(ctx)
+    elif lvl == "model-loop":
+        model_check_loop(ctx)
     else:
         raise MachineryFailure("replay file of unknown level %r" % lvl)
